@@ -1,6 +1,8 @@
 package main
 
 import (
+	"syscall"
+	"unsafe"
 	"bytes"
 	"regexp"
 	"context"
@@ -177,6 +179,9 @@ var solvers = []solverCfg{
 }
 
 var solverSem = make(chan struct{}, 16)
+
+// wallFactor: wall-clock backstop as a multiple of the CPU-time limit of one solver run
+const wallFactor = 8
 
 // runSMT races the configured solvers on the query. wantModel adds (get-model).
 func runSMT(workdir, name, query string, timeoutS int, seed int, only []string) SolverResult {
@@ -425,15 +430,24 @@ func runSMTCtx(parent context.Context, workdir, name, query, post string, timeou
 				ch <- res{sc.name, "cancelled", "", 0}
 				return
 			}
-			args := sc.args(file, timeoutS)
-			c, cancel2 := context.WithTimeout(ctx, time.Duration(timeoutS+2)*time.Second)
+			// the time limit is CPU time of the solver process (ulimit -t): a loaded machine makes a proof take longer on
+			// the wall clock, it must not make it fail. The wall-clock limits (the solver's own and the context's) are a
+			// generous backstop.
+			wall := timeoutS * wallFactor
+			args := sc.args(file, wall)
+			c, cancel2 := context.WithTimeout(ctx, time.Duration(wall+2)*time.Second)
 			defer cancel2()
 			cmd := exec.CommandContext(c, args[0], args[1:]...)
 			var out bytes.Buffer
 			cmd.Stdout = &out
 			cmd.Stderr = &out
 			t0 := time.Now()
-			cmd.Run()
+			if err := cmd.Start(); err == nil {
+				// RLIMIT_CPU on the child (prlimit64): soft = hard = the CPU-time limit in seconds
+				lim := [2]uint64{uint64(timeoutS), uint64(timeoutS)}
+				syscall.RawSyscall6(syscall.SYS_PRLIMIT64, uintptr(cmd.Process.Pid), 0 /* RLIMIT_CPU */, uintptr(unsafe.Pointer(&lim[0])), 0, 0, 0)
+				cmd.Wait()
+			}
 			ms := time.Since(t0).Milliseconds()
 			first := strings.TrimSpace(strings.SplitN(out.String(), "\n", 2)[0])
 			st := "error"
@@ -448,6 +462,8 @@ func runSMTCtx(parent context.Context, workdir, name, query, post string, timeou
 				st = "timeout"
 			case c.Err() != nil:
 				st = "timeout"
+			case first == "" || strings.Contains(first, "Killed") || strings.Contains(first, "CPU time limit"):
+				st = "timeout" // killed by the CPU-time limit
 			}
 			ch <- res{sc.name, st, out.String(), ms}
 		}(sc)
